@@ -474,6 +474,22 @@ fn main() {
                 &mut || out_cells(guarded(|| items.clone().collect_vec1::<O>()), icell));
             emit("collect_vec1", "filter", format!("(run_collect_plain {})", zl),
                 &mut || out_cells(guarded(|| Iterator::filter(items.clone().into_iter(), |_| true).collect_vec1::<O>()), icell));
+            // sources whose size_hint upper bound is NOT tight: they yield fewer items than they may announce, so a
+            // collector that trusts the upper bound (allocate + set_len) exposes unwritten slots
+            {
+                let kept: Vec<i64> = Iterator::map(Iterator::filter(Iterator::enumerate(items.iter().cloned()), |(i, _)| i % 3 != 1), |(_, x)| x).collect();
+                let zk = coq_zlist(&kept);
+                emit("collect_vec1", "filter_drops", format!("(run_collect_plain {})", zk),
+                    &mut || out_cells(guarded(|| Iterator::map(Iterator::filter(Iterator::enumerate(items.clone().into_iter()), |(i, _)| i % 3 != 1), |(_, x)| x).collect_vec1::<O>()), icell));
+                emit("collect_from_iter", "filter_drops", format!("(run_collect_plain {})", zk),
+                    &mut || out_cells(guarded(|| <O as Vec1<i64>>::collect_from_iter(Iterator::map(Iterator::filter(Iterator::enumerate(items.clone().into_iter()), |(i, _)| i % 3 != 1), |(_, x)| x))), icell));
+                let tw: Vec<i64> = Iterator::take_while(items.iter().cloned(), |x| *x < 15).collect();
+                emit("collect_vec1", "take_while", format!("(run_collect_plain {})", coq_zlist(&tw)),
+                    &mut || out_cells(guarded(|| Iterator::take_while(items.clone().into_iter(), |x| *x < 15).collect_vec1::<O>()), icell));
+                let sw: Vec<i64> = Iterator::skip_while(items.iter().cloned(), |x| *x < -5).collect();
+                emit("collect_from_iter", "skip_while", format!("(run_collect_plain {})", coq_zlist(&sw)),
+                    &mut || out_cells(guarded(|| <O as Vec1<i64>>::collect_from_iter(Iterator::skip_while(items.clone().into_iter(), |x| *x < -5))), icell));
+            }
             emit("collect_vec1", "deque_ref", format!("(run_collect_plain {})", zl),
                 &mut || { let d: VecDeque<i64> = items.iter().cloned().collect();
                           out_cells(guarded(|| d.iter().cloned().collect_vec1::<O>()), icell) });
@@ -554,6 +570,21 @@ fn main() {
                     &format!("fn=collect_vec1_opt ty=f64 out={} items={:?}", name, fo), || format!("(run_collect_opt_f {})", fterm),
                     || out_cells(guarded(|| fo.clone().collect_vec1_opt::<O>()), |x: f64| Cell::F(x)));
             });
+            // optional sources with a loose upper bound (filter / take_while drop items)
+            {
+                let fk: Vec<Option<f64>> = Iterator::map(Iterator::filter(Iterator::enumerate(fo.iter().cloned()), |(i, _)| i % 3 != 1), |(_, x)| x).collect();
+                let fkterm = coq_list(&fk, |x| coq_opt(x, |v| coq_f64(*v)));
+                let ft: Vec<Option<f64>> = Iterator::take_while(fo.iter().cloned(), |x| x.map_or(true, |v| v < 2.0)).collect();
+                let ftterm = coq_list(&ft, |x| coq_opt(x, |v| coq_f64(*v)));
+                for_containers!(f64, |O, name, _raw| {
+                    em.case("exact", &format!("fn=collect_vec1_opt ty=f64 out={} src=filter_drops len={} nulls={}{}", name, len, nulls, nt),
+                        &format!("fn=collect_vec1_opt ty=f64 out={} src=filter(i%3!=1) items={:?}", name, fo), || format!("(run_collect_opt_f {})", fkterm),
+                        || out_cells(guarded(|| Iterator::map(Iterator::filter(Iterator::enumerate(fo.clone().into_iter()), |(i, _)| i % 3 != 1), |(_, x)| x).collect_vec1_opt::<O>()), |x: f64| Cell::F(x)));
+                    em.case("exact", &format!("fn=collect_from_opt_iter ty=f64 out={} src=take_while len={} nulls={}{}", name, len, nulls, nt),
+                        &format!("fn=collect_from_opt_iter ty=f64 out={} src=take_while(v<2) items={:?}", name, fo), || format!("(run_collect_opt_f {})", ftterm),
+                        || out_cells(guarded(|| <O as Vec1<f64>>::collect_from_opt_iter(Iterator::take_while(fo.clone().into_iter(), |x| x.map_or(true, |v| v < 2.0)))), |x: f64| Cell::F(x)));
+                });
+            }
             for_containers!(Option<i32>, |O, name, _raw| {
                 em.case("exact", &format!("fn=collect_vec1_opt ty=opt_i32 out={} len={} nulls={}{}", name, len, nulls, nt),
                     &format!("fn=collect_vec1_opt ty=opt_i32 out={} items={:?}", name, oo), || format!("(run_collect_opt_oz {})", oterm),
